@@ -226,7 +226,14 @@ theorem unit_invariance_unitless (op : ℚ → ℚ → ℚ) (s1 s2 : USpec) (h1 
   rw [w1, v1, hwave2, (hs2 s2 h2 u).2.1, ← hs2'w.2, key]
   cases ufunc op ⟨s1.wave, s1.value⟩ ⟨s2'.wave, s2'.value⟩ m fill with
   | error e => rfl
-  | ok r => simp [Except.map, toWave_eq, h1, (hs2 s1 h1 u).2.2.1, (hs2 s1 h1 u).2.2.2, scaleS]
+  | ok r => simp [Except.map, toWave_eq, h1, (hs2 s1 h1 u).2.2.1, (hs2 s1 h1 u).2.2.2, scaleS, Gen.ufuncResultWaveUnitFromSelf, Gen.ufuncResultValueUnitFromSelf]
+
+/-- "both operands still describe the same physical spectrum afterwards", structural part (regenerated from `Spectrum._ufunc`):
+the right operand is brought to the left operand's unit on a COPY, `_ufunc` assigns no attribute of `self`, and the result
+carries the left operand's wavelength and value units. (That nothing else touches the operands is the snapshot oracle.) -/
+theorem operands_unchanged_structural :
+    Gen.ufuncConvertsCopy = true ∧ Gen.ufuncWritesSelf = false ∧
+    Gen.ufuncResultWaveUnitFromSelf = true ∧ Gen.ufuncResultValueUnitFromSelf = true := ⟨rfl, rfl, rfl, rfl⟩
 
 /-- scalar and equal-length vector operands act element-wise on the unchanged wavelength grid -/
 theorem scalar_vector_elementwise (op : ℚ → ℚ → ℚ) (s : Spectrum) (c : ℚ) (v : List ℚ) (hv : v.length = s.value.length) :
